@@ -370,7 +370,7 @@ for _pid, _thms, _text in [
 PROPS["C05"] = {
     "skeleton_fns": SUP_RELOAD + ["supervisor_PIDZero_reap", "supervisor_PIDZero_Run"],
     "lean_modules": ["GoSup.Props.C05"],
-    "theorems": ["GoSup.Props.C05.c05_passes", "GoSup.Props.C05.c05_one_pass_per_request"],
+    "theorems": ["GoSup.Props.C05.c05_passes", "GoSup.Props.C05.c05_one_pass_per_request", "GoSup.Props.C05.c05_trigger_taken"],
     "ties": [],
     "legs": [{"name": "sup", "cmd": "sup"}],
     "rule": SUP_RULE + " For C05 the trace is projected on the reload events (ReloadAll call/return, SIGHUP, ReloadSender trigger "
@@ -419,6 +419,26 @@ for _pid, _thms, _text in [
         "design_ref": "DESIGN.md section 5, " + _pid,
     }
 PROPS["C11"]["rule"] += " " + COMP_RULE
+# the concurrent composite model (CompLts): every interleaving of Run, Reload(), Stop(), cancellation and child events
+PROPS["C09"]["lean_modules"].append("GoSup.Props.C09L")
+PROPS["C09"]["theorems"] += ["GoSup.Props.C09L.c09_none_survive", "GoSup.Props.C09L.c09_one_live_generation",
+                             "GoSup.Props.C09L.c09_no_nil_context", "GoSup.Props.C09L.stuck_step",
+                             "GoSup.Props.C09L.c09_f1_stuck_forever", "GoSup.Props.C09L.c09_f1_reachable"]
+PROPS["C09"]["level_text"] = (
+    "Concurrent model CompLts (one action per critical section of Run/boot/stopAllRunnables/Reload/reloadWithRestart, children "
+    "as arbitrary processes, any number of reloads and generations): invariant proofs over every reachable state, i.e. every "
+    "interleaving - once Run() has returned the context of every generation of children ever booted is done, also of one booted "
+    "afterwards by an overtaken reload; at most one generation is alive at any time; boot never gets a nil context; the recorded "
+    "deadlock C09-F1 is a reachable configuration of the model that no action leaves (Run() and Reload() never return). "
+    "Operation-level model CompSeq: Running and not returned => running children = configured children, for histories of any "
+    "length. That Stop()/Reload() return in the remaining interleavings is checked on traces.")
+PROPS["C09"]["assumptions"] = ["children are mock runnables honouring the Runnable contract in the stated style",
+                               "CompLts is validated against the code by the skeleton ties of the composite package and by the "
+                               "composite leg's trace oracle; its atomic steps are the critical sections of runner.go/reload.go"]
+PROPS["C11"]["lean_modules"].append("GoSup.Props.C09L")
+PROPS["C11"]["theorems"] += ["GoSup.Props.C09L.c11_restart_stops_first", "GoSup.Props.C09L.c09_one_live_generation"]
+PROPS["C18"]["lean_modules"].append("GoSup.Props.C09L")
+PROPS["C18"]["theorems"] += ["GoSup.Props.C09L.c09_none_survive"]
 
 HTTP_RULE = ("histories on the real httpserver.Runner over loopback TCP (ephemeral ports): an initial configuration (1-3 routes whose "
              "handlers answer with their own name) and 1-4 operations - Reload with an unchanged / permuted / changed configuration "
